@@ -364,6 +364,7 @@ type reader struct {
 	stack      []Object
 	starts     []int
 	carry      []byte // carry over from previous stream read
+	charFirst  bool   // the next byte follows #\ and is taken as is
 	buf        []byte
 	line       int
 	lineStart  int
@@ -586,7 +587,14 @@ func (r *reader) read(src []byte) {
 	r.pos = -1
 	for r.pos, b = range src {
 	Retry:
-		switch r.mode[b] {
+		op := r.mode[b]
+		if r.charFirst {
+			// Whatever follows #\ is the character or the start of its
+			// name, also a parenthesis, quote, or other syntax character.
+			r.charFirst = false
+			op = skipByte
+		}
+		switch op {
 		case skipNewline:
 			r.line++
 			r.lineStart = r.pos
@@ -674,6 +682,7 @@ func (r *reader) read(src []byte) {
 		case charSlash:
 			r.tokenStart = r.pos + 1
 			r.mode = charMode
+			r.charFirst = true
 		case charDone:
 			r.pushChar(src)
 			r.mode = valueMode
@@ -1064,7 +1073,10 @@ const hexByteValues = "" +
 	"................................" //   0xe0
 
 func (r *reader) pushChar(src []byte) {
-	var c Character
+	var (
+		c     Character
+		valid bool
+	)
 	token := r.makeToken(src)
 	cnt := len(token)
 	switch cnt {
@@ -1072,6 +1084,7 @@ func (r *reader) pushChar(src []byte) {
 		r.raise(`'#\' is not a valid character`)
 	case 1:
 		c = Character(token[0])
+		valid = true
 	default:
 		var ok bool
 		if c, ok = runeMap[string(bytes.ToLower(token))]; ok {
@@ -1087,6 +1100,7 @@ func (r *reader) pushChar(src []byte) {
 			}
 			if rn <= unicode.MaxRune {
 				c = Character(rn)
+				valid = 5 <= cnt // #\u0000 is the null character
 			}
 			break
 		}
@@ -1094,7 +1108,7 @@ func (r *reader) pushChar(src []byte) {
 			c = Character(rn)
 		}
 	}
-	if c == 0 {
+	if c == 0 && !valid {
 		r.raise(`'#\%s' is not a valid character`, token)
 	}
 	r.push(c)
